@@ -82,7 +82,14 @@ def corpus():
     return out
 
 
-run_impl = _c03.run_impl
+def run_impl(case):
+    """two evaluations of the same spec object with every glom-created container of the first
+    result mutated in between, plus the identity observation of `ic.run_glom` (no mutable
+    container of the spec is part of a result or reaches a callable)"""
+    base = {k: v for k, v in case.items() if not k.startswith('impl')}
+    return ic.run_glom_mutating(base)
+
+
 key = _c03.key
 shrink = _c03.shrink
 
